@@ -8,9 +8,7 @@ from . import ftlib as F
 
 ID = "C16"
 CHECKER = "chk_dtype"
-THEOREMS = ["C16_no_truncation_conversions", "C16_no_truncation_transforms", "C16_transform_outputs_float",
-            "C16_conversion_values_float", "C16_original_safe_divide_truncates", "C16_original_transform_truncates",
-            "C16_model_is_a_function"]
+THEOREMS = ['C16_no_truncation_conversions', 'C16_no_truncation_transforms', 'C16_transform_outputs_float', 'C16_conversion_values_float', 'C16_original_safe_divide_truncates', 'C16_original_transform_truncates', 'C16_model_is_a_function']
 RULE = ("every public method of Converter (18), Transformer (fourier_transform, apply_cropping, 24 named), FourierFilter (12), Pre_Proc.rebin "
         "under every int64/float64 assignment of its array arguments (exhaustive) on integer-valued data, plus random-valued calls; each call "
         "is made twice with poisoned heap blocks freed in between and the argument arrays are fingerprinted before and after; "
